@@ -82,6 +82,7 @@ class Recorder:
         self.counts = {}
         self.robot = None
         self.faults = []
+        self.early = None          # {"site": s, "fn": f}: f() runs inside the next call of callback s (a driver-station change mid-iteration)
 
     def snapshot(self):
         r = self.robot
@@ -98,6 +99,10 @@ class Recorder:
         if site in PERIODIC or site.endswith(".on_iteration"):
             mode = self.mode_sub.get()
         self.log.append(["cb", site, i, self.now(), self.snapshot(), mode, arg])
+        if self.early is not None and self.early["site"] == site:
+            fn, self.early = self.early["fn"], None
+            self.log.append(["early-switch", site])
+            fn()
         st = self.plan.get(site)
         if st:
             st = st.get(str(i))
